@@ -7,6 +7,7 @@
    (4) between the decision and the finally block only an abort/halt request (or a new call) changes
    status or reason, an abort request always leaves status 'abort' and its reason, (5) what the
    blocking call reports, (6) FailedStatus originates only in a status that finished unsuccessfully.
+   (7) the interruption mark is set by the requests and sticky until the next call/resume.
    PARTIAL: the end-to-end statement C02_full ("the first cause decides") is not proved as one
    theorem; run_wrapper's own close_run (Gen/Wrappers.v, C22/C23) and the exception chaining
    (`FailedStatus` -> device exception, a Python `__cause__`) are outside this model: the chaining is
@@ -144,14 +145,37 @@ Theorem C02_failed_status_origin :
 Proof. exact failed_status_only_from_status. Qed.
 Print Assumptions C02_failed_status_origin.
 
-(* what is not proved: that the interruption mark survives until the call returns, i.e. that after an
-   accepted stop/abort/halt/pause the call reports RunEngineInterrupted unless the task raises.  It is
-   the statement below for EvTask (the other events are immediate); the correspondence checks it on every case. *)
-Definition C02_full : Prop :=
+(* (7) the interruption mark: set by every stop / halt / abort request on an engine that is not idle
+   (and by an accepted pause), it survives every event except a new call and a resume: so after such a
+   request the blocking call reports RunEngineInterrupted unless the task itself raises, by (5) *)
+Theorem C02_interrupted_sticky :
   forall (P : Type) (presume : P -> input -> outcome P) (plan_of : nat -> P)
          (D : Type) (dev : D -> nat -> devmeth -> D * devres) (s : st P D) e s' o,
     match e with EvMain (ACall _) | EvMain AResume => False | _ => True end ->
     step P presume plan_of D dev s e = (s', o) -> interrupted P D s = true -> interrupted P D s' = true.
+Proof. exact interrupted_sticky. Qed.
+Print Assumptions C02_interrupted_sticky.
+
+Theorem C02_stop_halt_request_marks :
+  forall (P : Type) (presume : P -> input -> outcome P) (plan_of : nat -> P)
+         (D : Type) (dev : D -> nat -> devmeth -> D * devres) (s : st P D) e s' o,
+    (e = EvReqStop \/ e = EvReqHalt) -> state P D s <> Idle ->
+    step P presume plan_of D dev s e = (s', o) -> interrupted P D s' = true.
+Proof. exact stop_halt_request_marks. Qed.
+Print Assumptions C02_stop_halt_request_marks.
+
+(* the end-to-end reading that is NOT proved as a single theorem: "classify the call by the first of
+   {plan returned, stop, abort, halt, failed pause, unhandled exception}; then every engine-made RunStop
+   carries the status of that class and the call reports Return / Interrupted / the exception".
+   (1)-(7) are its links; what is missing is their composition over a whole schedule, which needs the
+   lifecycle invariant of Proofs/RE_Inv.v (e.g. that RequestStop is only ever thrown in state 'stopping',
+   entered by a stop request, which by (7) leaves the mark). *)
+Definition C02_full : Prop :=
+  forall (P : Type) (presume : P -> input -> outcome P) (plan_of : nat -> P)
+         (D : Type) (dev : D -> nat -> devmeth -> D * devres) (d : D) (paus stag : list nat) (rec : bool) (evs : list event),
+    forall u xs rs num, In (ODoc (DStop u xs rs num)) (snd (run P presume plan_of D dev (init P D d paus stag rec) evs)) ->
+    xs = XSuccess \/ interrupted P D (fst (run P presume plan_of D dev (init P D d paus stag rec) evs)) = true \/
+    exists e, In (OTask (WRaise e)) (snd (run P presume plan_of D dev (init P D d paus stag rec) evs)).
 
 (* non-vacuity, recorded from the implementation: a plan raising with its run open (fail, exception
    text, re-raised), an abort (abort, given reason, interrupted), a stop (success, interrupted) *)
